@@ -13,6 +13,7 @@
 package main
 
 import (
+	"encoding/json"
 	"fmt"
 	"net"
 	"strings"
@@ -203,6 +204,12 @@ func (rn *runner) schedule(kind string) {
 		}
 		s.Do(op)
 	}
+	rn.scheduleOn(kind, s, e.Rng.Intn(1<<20))
+}
+
+// scheduleOn runs the two-goroutine schedule on a prepared world (the current configuration is reloaded unchanged).
+func (rn *runner) scheduleOn(kind string, s *gi.Session, pick int) {
+	conf := s.W.Conf
 	w := s.W
 	v := w.View()
 	pools, err := conf.Decode() // reload of the SAME configuration: nothing may change
@@ -216,7 +223,7 @@ func (rn *runner) schedule(kind string) {
 		if len(ips) == 0 {
 			kind = "allocate"
 		} else {
-			relIP = ips[e.Rng.Intn(len(ips))]
+			relIP = ips[pick%len(ips)]
 			relKey = v.Mem.Alloc[relIP].Key
 			if v.Mem.Alloc[relIP].Reserved {
 				kind = "allocate"
@@ -278,7 +285,7 @@ func (rn *runner) schedule(kind string) {
 		_ = berr
 	})
 	w.Deco.After = nil
-	src := append(append([]string(nil), s.Src...), fmt.Sprintf(`{"schedule":"ConfigurePool parked after List; concurrent %s; resume"}`, kind))
+	src := append(append([]string(nil), s.Src...), fmt.Sprintf(`{"schedule":%q,"pick":%d,"what":"ConfigurePool parked after its List call; concurrent %s; resume"}`, kind, pick, kind))
 	if out != "ok" {
 		rn.Violation("reload-schedule-"+out[:4], "two-goroutine schedule: "+out, src)
 		return
@@ -307,11 +314,32 @@ func (rn *runner) schedule(kind string) {
 	rn.R.Evaluations++
 }
 
+// replay: a history file, optionally ending in a schedule line.
+func (rn *runner) replay(path string) {
+	lines, err := hx.ReadOps(path)
+	if err != nil || len(lines) == 0 || !strings.HasPrefix(lines[len(lines)-1], `{"schedule"`) {
+		rn.ReplayFile(path, rn.monitor)
+		return
+	}
+	var sc struct {
+		Schedule string `json:"schedule"`
+		Pick     int    `json:"pick"`
+	}
+	if json.Unmarshal([]byte(lines[len(lines)-1]), &sc) != nil {
+		return
+	}
+	s, err := gi.ReplayLines(lines[:len(lines)-1], nil)
+	if err != nil {
+		return
+	}
+	rn.scheduleOn(sc.Schedule, s, sc.Pick)
+}
+
 func run(e *hx.Env) *hx.Report {
 	rn := &runner{gi.NewRunner(e, prop,
 		"a history is nontrivial when it contains at least 2 successful allocations and 1 successful reload")}
 	if e.Replay != "" {
-		rn.ReplayFile(e.Replay, rn.monitor)
+		rn.replay(e.Replay)
 		rn.Flush()
 		return rn.R
 	}
